@@ -174,17 +174,18 @@ Proof.
   apply srel_same_scopes; reflexivity.
 Qed.
 
-Lemma srel_walk : walk_hyps SREL (fun _ _ => True) (fun _ _ _ => False) (fun _ _ => False).
+Lemma srel_walk : walk_hyps SREL (ok_always (fun _ _ => True) (fun _ _ _ => False) (fun _ _ => False)).
 Proof.
   constructor.
   - apply srel_refl.
   - apply srel_trans.
   - apply srel_frame.
+  - exact I.
   - apply srel_new_scope.
-  - intros s d sh t. eapply srel_trans; [apply srel_new_scope|apply srel_scope_enter].
+  - intros s d sh t _. eapply srel_trans; [apply srel_new_scope|apply srel_scope_enter].
   - intros s c t _. apply srel_scope_enter.
-  - intros s g t. apply srel_scope_enter.
-  - intros s t. apply srel_scope_enter.
+  - intros s g t _. apply srel_scope_enter.
+  - intros s t _. apply srel_scope_enter.
   - apply srel_scope_exit.
   - intros s c. apply srel_scope_cancel; [discriminate|now right].
   - intros s c d [].
@@ -197,7 +198,7 @@ Proof.
   - intros s t f. apply srel_same_scopes; reflexivity.
   - intros s t f tm _. apply srel_same_scopes; reflexivity.
   - intros s f tm. apply srel_same_scopes; reflexivity.
-  - intros s c tm _. eapply srel_trans; [|apply srel_scope_timeout]. apply srel_same_scopes; reflexivity.
+  - intros s c tm _ _. eapply srel_trans; [|apply srel_scope_timeout]. apply srel_same_scopes; reflexivity.
   - intros s. apply srel_same_scopes; reflexivity.
   - intros s dt [].
 Qed.
@@ -260,7 +261,7 @@ Qed.
 (* ---------------- the step theorem ---------------- *)
 Theorem step_flags s o : WREL s (fst (step s o)).
 Proof.
-  destruct o; try (apply srel_wrel, (walk_step srel_walk); exact I).
+  destruct o; try (apply srel_wrel, (walk_step srel_walk), op_ok_always; exact I).
   - (* ASetDeadline *)
     unfold step. cbn [actor]. destruct (negb (idle s t)); [cbn [fst]; apply srel_wrel, srel_refl|].
     unfold puppet_op. cbv zeta.
@@ -316,4 +317,181 @@ Proof.
     split; [reflexivity|]. exists d. split; [reflexivity|now apply Z.leb_le].
   - cbn [call_at]. intros H1 H0. exfalso. cbn [upd_scope set_scopes scopes] in H1. rewrite upd_eq in H1.
     destruct (Nat.eqb x c) eqn:E; [apply Nat.eqb_eq in E; subst x|]; cbn in H1; congruence.
+Qed.
+
+(* ====================================================================================================== *)
+(* which ops can mark a scope cancelled-by-deadline at all                                                  *)
+(* ====================================================================================================== *)
+Record NB (s s' : st) : Prop := mk_NB {
+  nb_nscope : nscope s <= nscope s';
+  nb_scopes : forall c, c < nscope s -> s_bydeadline (scopes s' c) = true -> s_bydeadline (scopes s c) = true
+}.
+
+Lemma nb_refl s : NB s s.
+Proof. constructor; auto. Qed.
+
+Lemma nb_trans a b c : NB a b -> NB b c -> NB a c.
+Proof. intros [N1 K1] [N2 K2]. constructor; [lia|]. intros x Hx H. apply K1; [exact Hx|]. apply K2; [lia|exact H]. Qed.
+
+Lemma nb_same s s' : nscope s <= nscope s' ->
+  (forall c, c < nscope s -> s_bydeadline (scopes s' c) = s_bydeadline (scopes s c)) -> NB s s'.
+Proof. intros H1 H2. constructor; [exact H1|]. intros c Hc. now rewrite (H2 c Hc). Qed.
+
+Lemma nb_frame a b : frame a b -> NB a b.
+Proof.
+  intros F. apply nb_same; [rewrite (fr_nscope _ _ F); lia|]. intros c _. apply (tc_bydeadline _ _ (fr_scopes _ _ F c)).
+Qed.
+
+Lemma nb_upd_scope s x g : (forall k, s_bydeadline (g k) = s_bydeadline k) -> NB s (upd_scope s x g).
+Proof.
+  intros Hg. apply nb_same; [cbn; lia|]. intros c _. cbn [upd_scope set_scopes scopes]. rewrite upd_eq.
+  destruct (Nat.eqb c x) eqn:E; [|reflexivity]. apply Nat.eqb_eq in E. subst c. apply Hg.
+Qed.
+
+Lemma nb_same_scopes s s' : nscope s' = nscope s -> scopes s' = scopes s -> NB s s'.
+Proof. intros H1 H2. apply nb_same; [lia|]. intros c _. now rewrite H2. Qed.
+
+Lemma nb_cancel_timeout s c : NB s (cancel_timeout s c).
+Proof.
+  unfold cancel_timeout. destruct (s_timeout (scopes s c)) as [tm|]; [|apply nb_refl].
+  apply nb_trans with (timer_cancel s tm); [apply nb_same_scopes; reflexivity|].
+  apply nb_upd_scope. intros k; reflexivity.
+Qed.
+
+Lemma nb_scope_cancel_false s c : NB s (scope_cancel s c false).
+Proof.
+  unfold scope_cancel. destruct (s_cancelled (scopes s c)); [apply nb_refl|].
+  set (s2 := upd_scope (cancel_timeout s c) c _).
+  assert (H2 : NB s s2).
+  { destruct (nb_cancel_timeout s c) as [N K]. constructor; [exact N|]. intros x Hx. unfold s2.
+    cbn [upd_scope set_scopes scopes]. rewrite upd_eq. destruct (Nat.eqb x c); [cbn; discriminate|now apply K]. }
+  destruct (s_host (scopes s2 c)); [|exact H2]. eapply nb_trans; [exact H2|apply nb_frame, frame_deliver_top].
+Qed.
+
+Lemma nb_scope_timeout_none s c : s_deadline (scopes s c) = None -> scope_timeout s c = s.
+Proof. intros E. unfold scope_timeout. now rewrite E. Qed.
+
+Lemma nb_scope_enter s c t : s_deadline (scopes s c) = None -> NB s (fst (scope_enter s c t)).
+Proof.
+  intros Ed. unfold scope_enter. destruct (s_active (scopes s c)); [apply nb_refl|]. cbv zeta. cbn [fst].
+  match goal with |- context [scope_timeout ?a c] => set (s3 := a) end.
+  assert (H3 : NB s s3 /\ s_deadline (scopes s3 c) = None).
+  { unfold s3. split.
+    - match goal with |- NB s (match ?o with Some p => upd_scope ?a p ?g | None => _ end) =>
+        assert (H2 : NB s a);
+        [|destruct o; [eapply nb_trans; [exact H2|apply nb_upd_scope; intros k; reflexivity]|exact H2]] end.
+      match goal with |- NB s (upd_task ?a _ _) => apply nb_trans with a end;
+        [apply nb_upd_scope; intros k; reflexivity|apply nb_same_scopes; reflexivity].
+    - destruct (k_cur (tasks s t)) as [p|]; cbn [upd_scope upd_task set_scopes set_tasks scopes]; rewrite ?upd_eq;
+        repeat match goal with |- context [Nat.eqb ?a ?b] => destruct (Nat.eqb_spec a b); subst end; exact Ed. }
+  destruct H3 as [H3 E3]. rewrite (nb_scope_timeout_none s3 c E3).
+  assert (H5 : NB s (upd_scope s3 c (sc_active true))).
+  { eapply nb_trans; [exact H3|apply nb_upd_scope; intros k; reflexivity]. }
+  destruct (s_cancelled _); [|exact H5]. eapply nb_trans; [exact H5|apply nb_frame, frame_deliver_top].
+Qed.
+
+Lemma nb_scope_exit s c t exc : NB s (fst (scope_exit s c t exc)).
+Proof.
+  destruct (scope_exit_chain_frame s c t exc) as (_ & M & K). apply nb_same; [lia|].
+  intros x _. apply (K x).
+Qed.
+
+Lemma nb_set_deadline_none s c : NB s (set_deadline_body s c None).
+Proof.
+  unfold set_deadline_body. cbv zeta. set (s1 := cancel_timeout (upd_scope s c (sc_deadline None)) c).
+  assert (H1 : NB s s1).
+  { unfold s1. eapply nb_trans; [|apply nb_cancel_timeout]. apply nb_upd_scope. intros k; reflexivity. }
+  assert (E1 : s_deadline (scopes s1 c) = None).
+  { unfold s1, cancel_timeout. destruct (s_timeout _);
+      cbn [upd_scope set_scopes scopes timer_cancel set_ready set_timers]; rewrite ?upd_same; reflexivity. }
+  destruct (_ && _); [|exact H1]. now rewrite (nb_scope_timeout_none s1 c E1).
+Qed.
+
+Lemma nb_new_scope s d sh : NB s (fst (new_scope s d sh)).
+Proof.
+  apply nb_same; [cbn; lia|]. intros c Hc. cbn [new_scope fst scopes]. now rewrite upd_other by lia.
+Qed.
+
+Lemma nb_spawn s g sf : NB s (fst (spawn_task s g sf)).
+Proof.
+  unfold spawn_task. cbv zeta.
+  change (new_scope s None false) with (fst (new_scope s None false), snd (new_scope s None false)). cbv iota.
+  cbn [fst]. eapply nb_trans; [apply nb_new_scope|].
+  eapply nb_trans; [|apply nb_frame; now apply frame_call_soon].
+  eapply nb_trans; [|apply nb_frame, frame_restart].
+  eapply nb_trans; [|apply nb_frame, frame_upd_group; reflexivity].
+  eapply nb_trans; [|apply nb_upd_scope; intros k; reflexivity].
+  apply nb_same_scopes; reflexivity.
+Qed.
+
+(* side conditions: the op does not run CancelScope._timeout on a scope with a finite deadline *)
+Definition quiet_oks : oks :=
+  mk_oks (fun s c => s_deadline (scopes s c) = None)
+         (fun _ _ d => d = None)
+         (fun _ _ => True)
+         (fun d => d = None)
+         (fun s g => s_deadline (scopes s (g_scope (groups s g))) = None)
+         (fun s t => s_deadline (scopes s (k_hscope (tasks s t))) = None)
+         (fun _ _ _ => False).
+
+Lemma nb_walk : walk_hyps NB quiet_oks.
+Proof.
+  constructor; cbn [quiet_oks ok_enter ok_setdl ok_tick ok_new ok_genter ok_henter ok_trun].
+  - apply nb_refl.
+  - apply nb_trans.
+  - apply nb_frame.
+  - reflexivity.
+  - apply nb_new_scope.
+  - intros s d sh t ->. eapply nb_trans; [apply nb_new_scope|]. apply nb_scope_enter.
+    cbn [new_scope fst scopes]. now rewrite upd_same.
+  - intros s c t E. now apply nb_scope_enter.
+  - intros s g t E. now apply nb_scope_enter.
+  - intros s t E. now apply nb_scope_enter.
+  - apply nb_scope_exit.
+  - apply nb_scope_cancel_false.
+  - intros s c d ->. apply nb_set_deadline_none.
+  - intros s c _. apply nb_same_scopes; reflexivity.
+  - apply nb_spawn.
+  - intros s t f w.
+    apply nb_trans with (suspend_on (fst (call_at s w (TSleep f))) t f); [|apply nb_same_scopes; reflexivity].
+    apply nb_trans with (fst (call_at s w (TSleep f))); [apply nb_same_scopes; reflexivity|apply nb_frame, frame_suspend_on].
+  - intros s t f. apply nb_same_scopes; reflexivity.
+  - intros s t f tm _. apply nb_same_scopes; reflexivity.
+  - intros s f tm. apply nb_same_scopes; reflexivity.
+  - intros s c tm [].
+  - intros s. apply nb_same_scopes; reflexivity.
+  - intros s dt _. apply nb_same_scopes; reflexivity.
+Qed.
+
+(* ops that cannot run _timeout on a scope with a finite deadline *)
+Definition quiet_op (s : st) (o : op) : Prop :=
+  match o with
+  | AEnter _ c => s_deadline (scopes s c) = None
+  | ASetDeadline _ _ d => d = None
+  | AFailAt _ d _ => d = None
+  | AGroupEnter _ g => s_deadline (scopes s (g_scope (groups s g))) = None
+  | ARun (HStep t) | ARun (HWake t _) => s_deadline (scopes s (k_hscope (tasks s t))) = None
+  | ARun (HTimeout _ _) => False
+  | _ => True
+  end.
+
+Lemma quiet_op_ok s o : quiet_op s o -> @op_ok quiet_oks s o.
+Proof.
+  destruct o; cbn [quiet_op op_ok quiet_oks ok_enter ok_setdl ok_tick ok_new ok_genter ok_henter ok_trun]; auto.
+  - (* AGroupEnter *) intros E. cbn [upd_group set_groups groups scopes begin_act set_running upd_task set_tasks].
+    rewrite upd_same. exact E.
+  - (* ARun *) destruct h; cbn [run_ok quiet_oks ok_henter ok_trun]; auto.
+    + intros E. cbn [upd_task set_tasks tasks scopes incoming fst set_running pop set_ready]. rewrite !upd_same. exact E.
+    + intros E. cbn [upd_task set_tasks tasks scopes incoming fst set_running pop set_ready]. rewrite !upd_same. exact E.
+Qed.
+
+(* C06: the ghost "cancelled by its deadline" can only appear in a step that enters a scope with a finite
+   deadline (AEnter, AFailAt, AGroupEnter, first step of a child), assigns a finite deadline, or runs a fired
+   timeout callback *)
+Theorem bydeadline_only_by_timeout_ops s o c :
+  c < nscope s -> quiet_op s o -> s_bydeadline (scopes s c) = false ->
+  s_bydeadline (scopes (fst (step s o)) c) = false.
+Proof.
+  intros Hc Hq H0. pose proof (walk_step nb_walk s o (quiet_op_ok s o Hq)) as [_ K].
+  destruct (s_bydeadline (scopes (fst (step s o)) c)) eqn:E; [|reflexivity]. rewrite (K c Hc E) in H0. discriminate.
 Qed.
